@@ -202,6 +202,23 @@ Theorem C15_select_propstat : forall ps n, select_propstat ps n = spec_select ps
 Proof. exact select_propstat_spec. Qed.
 Print Assumptions C15_select_propstat.
 
+(** Response.DecodeProp with several values (after repair f543abd): it succeeds
+    exactly when every value, taken alone, is selected and decoded, and yields
+    them in the order of the arguments... *)
+Theorem C15_decode_prop_all : forall tags rc ps ids,
+  decode_prop_all tags rc ps = Ok ids <->
+  Forall2 (fun t s => decode_prop t rc ps = Ok s) tags ids.
+Proof. exact decode_prop_all_ok. Qed.
+Print Assumptions C15_decode_prop_all.
+
+(** ...and otherwise fails (or panics) as the first value that fails alone. *)
+Theorem C15_decode_prop_all_first_failure : forall pre t post rc ps ids,
+  Forall2 (fun t s => decode_prop t rc ps = Ok s) pre ids ->
+  (forall c, decode_prop t rc ps = Err c -> decode_prop_all (pre ++ t :: post) rc ps = Err c) /\
+  (decode_prop t rc ps = Panic -> decode_prop_all (pre ++ t :: post) rc ps = Panic).
+Proof. exact decode_prop_all_first_failure. Qed.
+Print Assumptions C15_decode_prop_all_first_failure.
+
 (** valueXMLName reads (namespace, local name) off a tag "ns local[,options]". *)
 Theorem C15_value_xml_name : forall sp lo opts,
   has_char " " sp = false -> has_char "," sp = false ->
